@@ -706,8 +706,9 @@ class Telnet(protocol.Protocol):
     def wont_yes_false(self, state, option):
         # Peer is unilaterally demanding that an option be disabled.
         state.him.state = "no"
-        self.disableRemote(option)
+        # Acknowledge first: disableRemote() may issue new requests.
         self._dont(option)
+        self.disableRemote(option)
 
     def wont_yes_true(self, state, option):
         # Peer agreed to disable an option at our request.
@@ -788,8 +789,9 @@ class Telnet(protocol.Protocol):
     def dont_yes_false(self, state, option):
         # Peer is unilaterally demanding we disable an option.
         state.us.state = "no"
-        self.disableLocal(option)
+        # Acknowledge first: disableLocal() may issue new requests.
         self._wont(option)
+        self.disableLocal(option)
 
     def dont_yes_true(self, state, option):
         # Peer acknowledged our notice that we will disable an option.
